@@ -15,6 +15,7 @@ CONSTANTS
   AfterHeight = 2
   LockNames = {"a"}
   ConnectChoices <- SmallConnect
+  SwapChoices <- SmallSwap
   ReorgChoices <- SmallReorg
   MaxTip = 9
   MaxSteps = 4
@@ -22,6 +23,6 @@ CONSTANTS
 INIT PlainInit
 NEXT PlainNext
 VIEW View
-INVARIANTS FileInfoExact CursorAlive RecentHaveData
+INVARIANTS FileInfoExact FileInfoCovers CursorAlive RecentHaveData
 PROPERTIES PropRecentX PropLockedX PropBuffer PropAuto
 CHECK_DEADLOCK FALSE
